@@ -14,12 +14,22 @@ RULE = ("texts: every subset of {0..11} as a shuffled comma list (quick and thor
         "non-trivial = at least one interval of width>=2 or an append/remove, distinct by request line. "
         "int hashing is not affected by PYTHONHASHSEED, so hash seeds are not varied; '_' digit separators and "
         "non-ASCII digits (accepted by int()) are not generated.")
-LEVEL_TEXT = ("Theorems (Lean 4, all inputs): accepted range texts expand to exactly the union of their closed intervals, "
-              "strictly ascending; append/remove are sorted-set insert/delete raising exactly on duplicate/absent; ordered views "
-              "equal the state. The model is tied to CiscoRange(result_type=int) by differential runs on every check "
+LEVEL_TEXT = ("Theorems (Lean 4, all inputs, no bound on size or magnitude): accepted range texts expand to exactly the union of "
+              "their closed intervals, strictly ascending (parse_denotes); append/remove are sorted-set insert/delete raising exactly on "
+              "duplicate/absent; ordered views equal the state; for every strictly ascending S the index loop of as_compressed_str "
+              "(3-element window, de-duplicated '-' markers, type-switch comma logic) writes exactly renderRuns (runs S): the maximal "
+              "runs as a / a,b / a-b joined by ',' (compress_canonical), the runs being well formed, covering exactly S in order and "
+              "pairwise separated by a gap (runs_canonical); the compressed string is accepted by the parser and expands to S again at "
+              "the character level, using int(str(n)) = n, split/join and strip lemmas (expand_compress, parse_compress_idem, "
+              "compress_injective); any blank-free list of parts lo / lo-hi joined by ',' parses to the sorted union of its parts "
+              "(parse_written_parts); every read accessor, any sequence of them, and a failed append/remove leave the state unchanged "
+              "(readers_pure, readers_pure_seq, failed_mutation_pure, stated about the model function stepOp that the driver executes). "
+              "The model is tied to CiscoRange(result_type=int) by differential runs on every check "
               "(all 4096 subsets of 0..11 plus random interval lists and accessor/mutator sequences).")
 LEVEL_NOTE = ("Trusted: Lean kernel; axioms propext/Classical.choice/Quot.sound only; the correspondence harness; model of int() "
-              "restricted to ASCII digits, sign and surrounding whitespace. Proved about the model, measured against the code.")
+              "restricted to ASCII digits, sign and surrounding whitespace. Proved about the model, measured against the code. "
+              "readers_pure is a statement about the model's step function (reads return `data` unchanged by construction); that the "
+              "real accessors do not mutate is measured by the correspondence (state re-read after every accessor sequence), not proved.")
 EXHAUSTIVE = {"quick": False, "thorough": False}
 ASSUMPTIONS = [
     "model int() = optional surrounding whitespace, optional sign, ASCII digits",
